@@ -18,6 +18,12 @@ def anchors(a: Anchors):
     a.state("molecules_store_only_pos_rot_features", "acryo/molecules/core.py",
             {"Molecules": ["_pos", "_rotator", "_features", "features", "class:groupby"]},
             "a Molecules object stores positions, rotator and feature table and nothing derived from them (no memo that could go stale)")
+    a.fresh("table_operations_return_new_objects",
+            [(MC, "Molecules." + m_) for m_ in ("subset", "filter", "sort", "head", "tail", "sample", "concat_with", "with_features", "drop_features", "copy",
+                                                "translate", "translate_internal", "translate_random", "rotate_by", "rotate_by_rotvec", "rotate_by_rotvec_internal",
+                                                "rotate_by_quaternion", "rotate_by_matrix", "rotate_by_euler_angle", "rotate_random", "linear_transform")]
+            + [(MC, "Molecules.concat"), (MC, "Molecules.from_dataframe")],
+            "no table operation returns its receiver (except the documented copy=False forms): a result never aliases its input")
     a.fact("subset_int_is_unit_slice", MC, "Molecules.subset", "int spec -> slice(spec, spec+1); negative / out of range rejected",
            lambda fn: all(t in norm(ast.unparse(fn)) for t in ["ifspec<0:raiseIndexError(", "ifspec>=len(self):raiseIndexError(",
                                                                "_spec=slice(spec,spec+1)", "pos=self.pos[_spec]",
